@@ -2,7 +2,7 @@
 From BV Require Import Base.Prelude Model.Block Model.ForkDB Model.Forkable Model.ForkableLookups
   Model.Burst Model.Hub Model.CursorResolver Model.Joining
   Spec.Consumer Spec.Universe Check.Burst_Check Check.C07_Check Spec.C06_Spec Spec.C07_Spec Spec.C09_Spec
-  Spec.C07_Compose_Spec Proofs.C07_ComposeCheck Proofs.C07_Compose Proofs.C07_ComposeCursor.
+  Spec.C07_Compose_Spec Proofs.C07_ComposeCheck Proofs.C07_Compose Proofs.C07_ComposeCursor Proofs.C07_FullRefuted.
 Local Open Scope N_scope.
 
 (* number mode, default filter, no stop block: hub_agrees of C07_seamless_full discharged from the world *)
@@ -15,6 +15,12 @@ Print Assumptions c07_seamless_num.
 Theorem c07_seamless_cursor_partial : C07_seamless_cursor_files.
 Proof. exact c07_seamless_cursor_files_proof. Qed.
 Print Assumptions c07_seamless_cursor_partial.
+
+(* the statement C07_seamless_full of Spec/C07_Spec.v itself is refutable (a run that ends waiting for the next
+   merged file): why the theorems above have the conclusions they have *)
+Theorem c07_seamless_full_refuted : ~ C07_seamless_full.
+Proof. exact c07_seamless_full_refuted_proof. Qed.
+Print Assumptions c07_seamless_full_refuted.
 
 (* ---- non-vacuity ---- *)
 
